@@ -197,13 +197,26 @@ theorem transfer_inv (accts : List Addr) (hn : accts.Nodup) (g : Cfg) (c c2 : VS
     WF accts c2 ∧ 0 ≤ r.m ∧ 0 < sh.m ∧ sh.m ≤ dm c frm ∧
     (∀ a, dm c2 a = if a = frm then dm c frm - sh.m else if a = to then dm c to + r.m else dm c a) ∧
     c2.supply = c.supply ∧ c2.bal = c.bal ∧ c2.ubd = c.ubd ∧ c2.redel = c.redel := by
-  obtain ⟨-, hpos, x, v, c1, amt, hx, hv, hg, hu, hrz, hd⟩ := transfer_spec g c c2 frm to sh r h
+  obtain ⟨-, hpos, x, v, c1, amt, hx, hv, hg, hu, hcase⟩ := transfer_spec g c c2 frm to sh r h
   obtain ⟨wf1, hamt, hdm1, s1, b1, u1, r1⟩ := unbond_inv accts hn c c1 frm sh amt hf (by omega) hwf hu
-  obtain ⟨wf2, hr, hdm2, s2, b2, u2, r2⟩ := delegate_inv accts hn c1 c2 to amt r ht hamt wf1 hd
   obtain ⟨x', -, -, hx', hle, -⟩ := unbond_spec c c1 frm sh amt hu
-  refine ⟨wf2, hr, hpos, ?_, ?_, by rw [s2, s1], by rw [b2, b1], by rw [u2, u1], by rw [r2, r1]⟩
-  · unfold dm; rw [hx']; exact hle
-  · intro a
+  have hlef : sh.m ≤ dm c frm := by
+    have e : dm c frm = (match c.del frm with | some d => d.m | none => 0) := rfl
+    rw [e, hx']; exact hle
+  rcases hcase with ⟨-, -, hc, hr0⟩ | ⟨-, hd⟩
+  · subst hc; subst hr0
+    refine ⟨wf1, by simp [Dec.zero], hpos, hlef, ?_, s1, b1, u1, r1⟩
+    intro a
+    rw [hdm1 a]
+    by_cases h1 : a = frm
+    · simp only [h1, ite_true]
+    · simp only [h1, ite_false]
+      by_cases h2 : a = to
+      · simp only [h2, ite_true, Dec.zero]; omega
+      · simp only [h2, ite_false]
+  · obtain ⟨wf2, hr, hdm2, s2, b2, u2, r2⟩ := delegate_inv accts hn c1 c2 to amt r ht hamt wf1 hd
+    refine ⟨wf2, hr, hpos, hlef, ?_, by rw [s2, s1], by rw [b2, b1], by rw [u2, u1], by rw [r2, r1]⟩
+    intro a
     rw [hdm2 a]
     by_cases h1 : a = to
     · subst h1
@@ -728,7 +741,7 @@ theorem transfer_rate1 (g : Cfg) (c c2 : VSt) (frm to : Addr) (sh r : Dec) (k : 
     Rate1 c2 ∧ r.m = sh.m ∧
     (∀ a, dm c2 a = if a = frm then dm c frm - sh.m else if a = to then dm c to + r.m else dm c a) ∧
     c2.supply = c.supply ∧ c2.bal = c.bal ∧ c2.ubd = c.ubd ∧ c2.redel = c.redel := by
-  obtain ⟨-, hpos, x, v, c1, amt, hx, hv, hg, hu, hrz, hd⟩ := transfer_spec g c c2 frm to sh r h
+  obtain ⟨-, hpos, x, v, c1, amt, hx, hv, hg, hu, hcase⟩ := transfer_spec g c c2 frm to sh r h
   have hk0 : 0 ≤ k := by
     rw [hk] at hpos
     rcases Int.lt_or_le k 0 with h' | h'
@@ -736,15 +749,20 @@ theorem transfer_rate1 (g : Cfg) (c c2 : VSt) (frm to : Addr) (sh r : Dec) (k : 
       omega
     · exact h'
   obtain ⟨rr1, hamt, hdm1, s1, b1, u1, q1⟩ := unbond_rate1 c c1 frm sh amt k hk hk0 hr1 hu
-  obtain ⟨rr2, hr, hdm2, s2, b2, u2, q2⟩ := delegate_rate1 c1 c2 to amt r (by omega) rr1 hd
-  refine ⟨rr2, by rw [hr, hamt, hk], ?_, by rw [s2, s1], by rw [b2, b1], by rw [u2, u1], by rw [q2, q1]⟩
-  intro a
-  rw [hdm2 a]
-  by_cases h1 : a = to
-  · subst h1
-    have : ¬ a = frm := fun e => hne e.symm
-    simp only [this, ite_false, ite_true, hdm1 a]
-  · simp only [h1, ite_false, hdm1 a]
+  rcases hcase with ⟨-, ha0, -, -⟩ | ⟨-, hd⟩
+  · -- whole shares at rate one are worth k ≥ 1 tokens: the zero-amount branch is unreachable
+    exfalso
+    have hk00 : k = 0 := by omega
+    rw [hk, hk00] at hpos; simp at hpos
+  · obtain ⟨rr2, hr, hdm2, s2, b2, u2, q2⟩ := delegate_rate1 c1 c2 to amt r (by omega) rr1 hd
+    refine ⟨rr2, by rw [hr, hamt, hk], ?_, by rw [s2, s1], by rw [b2, b1], by rw [u2, u1], by rw [q2, q1]⟩
+    intro a
+    rw [hdm2 a]
+    by_cases h1 : a = to
+    · subst h1
+      have : ¬ a = frm := fun e => hne e.symm
+      simp only [this, ite_false, ite_true, hdm1 a]
+    · simp only [h1, ite_false, hdm1 a]
 
 theorem truncateInt_mul_P (k : Int) (d : Dec) (h : d.m = k * P) (hk : 0 ≤ k) : d.truncateInt = k := by
   unfold Dec.truncateInt
